@@ -48,6 +48,7 @@ type cScn struct {
 	dead     map[int]bool
 	onMe     map[int]bool
 	opi      int
+	nmsgs    int
 	out      *bufio.Writer
 }
 
@@ -231,9 +232,13 @@ func (sc *cScn) emitState() {
 		ml = append(ml, fmt.Sprintf("msg %05d from=%d %s content=%s", m.Seq, sc.uidIdx[m.From], sc.headStr(h), m.Content))
 	}
 	sort.Strings(ml)
-	for _, l := range ml {
-		fmt.Fprintln(sc.out, l)
+	// only the rows added since the previous request (rows are never removed in these scenarios)
+	for i, l := range ml {
+		if i >= sc.nmsgs {
+			fmt.Fprintln(sc.out, l)
+		}
 	}
+	sc.nmsgs = len(ml)
 }
 
 func (sc *cScn) topics() []string {
